@@ -65,6 +65,10 @@ def producers(env):
     # an error inside a one-item array or one-cell range under a comparison is that error (the array is its item)
     P.append(dict(text='({1/0}=1)', code='#DIV/0!', kind='operator-python'))
     P.append(dict(text='({NA()}<2)', code='#N/A', kind='operator-python'))
+    # ... at any depth
+    P.append(dict(text='(' + '{' * 9 + '1/0' + '}' * 9 + '=1)', code='#DIV/0!', kind='operator-python'))
+    P.append(dict(text='(' + '{' * 12 + 'NA()' + '}' * 12 + '+1)', code='#N/A', kind='operator-python'))
+    P.append(dict(text='{' * 40 + '1/0' + '}' * 40, code='#DIV/0!', kind='operator-python'))
     # a percent literal beyond the largest number: an error value like the quotient it is (not an abort of the formula)
     P.append(dict(text='(1' + '0' * 311 + '%)', code=None, kind='operator-python'))
     for i, c in enumerate(CODES8):
@@ -98,7 +102,7 @@ def producers(env):
     return P
 
 
-NPRODUCERS = 128
+NPRODUCERS = 131
 
 
 LITERALS = ['#NULL!', '#DIV/0!', '#VALUE!', '#REF!', '#NAME?', '#NUM!', '#N/A', '#ERROR!', '#GETTING_DATA']
